@@ -773,3 +773,142 @@ func runC08_11(c *core.Ctx) {
 		c.Violate(f.Name, "receiver of the datagram", f.Decl.Pos(), "readUDP no longer calls OnTraffic")
 	}
 }
+
+func init() {
+	register(&core.Rule{ID: "C17.12", Prop: "C17", MinSites: 4,
+		Desc: "resolved addresses reach the kernel form unchanged: in GetTCPSockAddr/GetUDPSockAddr every ipToSockaddr call passes the resolved address's own IP and Port, the family assigned on that path, and as zone \"\" exactly under AF_INET and the resolved address's Zone exactly under AF_INET6; GetUnixSockAddr builds SockaddrUnix from the resolved address's Name; each returns the resolved address it converted",
+		Run:  runC17_12})
+}
+
+func runC17_12(c *core.Ctx) {
+	ipTo := c.P.Func("pkg/socket", "ipToSockaddr")
+	if !c.Need("ipToSockaddr", ipTo) {
+		return
+	}
+	for _, spec := range []struct{ fn, resolver string }{{"GetTCPSockAddr", "ResolveTCPAddr"}, {"GetUDPSockAddr", "ResolveUDPAddr"}, {"GetUnixSockAddr", "ResolveUnixAddr"}} {
+		f := getFn(c, "pkg/socket", spec.fn)
+		if f == nil {
+			continue
+		}
+		// the resolved address
+		var res types.Object
+		ast.Inspect(f.Decl.Body, func(n ast.Node) bool {
+			if as, ok := n.(*ast.AssignStmt); ok && len(as.Rhs) == 1 && len(as.Lhs) == 2 {
+				if call, ok := ast.Unparen(as.Rhs[0]).(*ast.CallExpr); ok && flow.IsPkgFunc(f.Info, call, "net", spec.resolver) {
+					res = flow.ObjOf(f.Info, as.Lhs[0])
+				}
+			}
+			return true
+		})
+		if res == nil {
+			c.Violate(f.Name, "resolved address", f.Decl.Pos(), spec.fn+" no longer resolves its argument with net."+spec.resolver)
+			continue
+		}
+		fieldOfRes := func(e ast.Expr, name string) bool {
+			sel, ok := seeThrough(f, e).(*ast.SelectorExpr)
+			return ok && flow.ObjOf(f.Info, sel.X) == res && sel.Sel.Name == name
+		}
+		if spec.fn == "GetUnixSockAddr" {
+			found := false
+			ast.Inspect(f.Decl.Body, func(n ast.Node) bool {
+				if cl, ok := n.(*ast.CompositeLit); ok {
+					if tn, ok := f.Info.TypeOf(cl).(*types.Named); ok && tn.Obj().Name() == "SockaddrUnix" {
+						for _, el := range cl.Elts {
+							if kv, ok := el.(*ast.KeyValueExpr); ok {
+								if id, ok := kv.Key.(*ast.Ident); ok && id.Name == "Name" {
+									found = true
+									// (net.ResolveUnixAddr keeps the path as given, so the address parameter itself is the same string)
+									c.Check(fieldOfRes(kv.Value, "Name") || flow.ObjOf(f.Info, kv.Value) == types.Object(f.param(1)), f.Name, "SockaddrUnix.Name", kv.Pos(), "the resolved address's Name",
+										"the kernel address is built from something other than the resolved Unix address's Name: the socket is bound/connected to a different path than the one reported")
+								}
+							}
+						}
+					}
+				}
+				return true
+			})
+			if !found {
+				c.Violate(f.Name, "SockaddrUnix.Name", f.Decl.Pos(), "GetUnixSockAddr builds no SockaddrUnix{Name: …}")
+			}
+		} else {
+			// family constant on the path: 1 = AF_INET, 2 = AF_INET6, 0 = unknown
+			var famObj types.Object
+			for _, call := range callsIn(f.Decl.Body, false) {
+				if flow.IsCall(f.Info, call, ipTo) && len(call.Args) == 4 {
+					famObj = flow.ObjOf(f.Info, call.Args[0])
+				}
+			}
+			famOf := func(e ast.Expr) int {
+				if o := flow.ObjOf(f.Info, e); o != nil && o.Pkg() != nil && o.Pkg().Path() == unixPkg {
+					switch o.Name() {
+					case "AF_INET":
+						return 1
+					case "AF_INET6":
+						return 2
+					}
+				}
+				return 0
+			}
+			au := &flow.Auto{Start: 0}
+			au.Node = func(b *flow.Block, i int, n ast.Node, s int) int {
+				if as, ok := n.(*ast.AssignStmt); ok && len(as.Lhs) == len(as.Rhs) {
+					for k, l := range as.Lhs {
+						if famObj != nil && flow.ObjOf(f.Info, l) == famObj {
+							s = famOf(as.Rhs[k])
+						}
+					}
+				}
+				return s
+			}
+			sol := f.Graph().Run(au)
+			k := 0
+			sol.Walk(func(b *flow.Block, i int, n ast.Node, before uint64) {
+				for _, call := range flow.Calls(n) {
+					if !flow.IsCall(f.Info, call, ipTo) || len(call.Args) != 4 {
+						continue
+					}
+					k++
+					fam := 0
+					if st := flow.States(before); len(st) == 1 {
+						fam = st[0]
+					}
+					if d := famOf(call.Args[0]); d != 0 {
+						fam = d
+					}
+					zoneEmpty := false
+					if cv := flow.ConstOf(f.Info, call.Args[3]); cv != nil && cv.ExactString() == `""` {
+						zoneEmpty = true
+					}
+					zoneOK := (fam == 1 && zoneEmpty) || (fam == 2 && fieldOfRes(call.Args[3], "Zone"))
+					good := fieldOfRes(call.Args[1], "IP") && fieldOfRes(call.Args[2], "Port") && zoneOK
+					c.Check(good, f.Name, "ipToSockaddr call #"+itoa(k), call.Pos(), "resolved IP, Port and the zone that belongs to the family",
+						"the kernel address is not built from the resolved address's own IP, Port and (under AF_INET6) Zone with the family assigned on this path: the socket is bound or connected to another address, port or scope than the net.Addr that is reported for it")
+				}
+			})
+			if k < 2 {
+				c.Violate(f.Name, "ipToSockaddr calls", f.Decl.Pos(), spec.fn+" converts fewer than its two families")
+			}
+		}
+		// the address handed back is the resolved one
+		named := false
+		if rl := f.Decl.Type.Results; rl != nil {
+			for _, fld := range rl.List {
+				for _, nm := range fld.Names {
+					if f.Info.Defs[nm] == res {
+						named = true
+					}
+				}
+			}
+		}
+		if !named {
+			for _, b := range f.Graph().Exits() {
+				for _, r := range b.Return.Results {
+					if flow.ObjOf(f.Info, r) == res {
+						named = true
+					}
+				}
+			}
+		}
+		c.Check(named, f.Name, "resolved address returned", f.Decl.Pos(), "the caller reports the address that was converted", spec.fn+" does not return the address it resolved: the reported local/remote address differs from the one the socket uses")
+	}
+}
